@@ -3,6 +3,7 @@
 package verifharness
 
 import (
+	"sync/atomic"
 	"context"
 	"errors"
 	"fmt"
@@ -274,10 +275,18 @@ func TestDrive_C06(t *testing.T) {
 				bh := bulkhead.Builder[int](uint(cap)).Build()
 				inner := bulkhead.Builder[int](1).Build()
 				inner.TryAcquirePermit() // the inner bulkhead is full for good
+				var inFlight, maxInFlight atomic.Int32
 				for i := 0; i < 12; i++ {
 					var pols []failsafe.Policy[int]
 					n := 0
 					fn := func() (int, error) {
+						// every invocation of the function through the bulkhead holds a permit: never more than cap of them at once
+						if kind != "nested-full" {
+							if c := inFlight.Add(1); c > maxInFlight.Load() {
+								maxInFlight.Store(c)
+							}
+							defer inFlight.Add(-1)
+						}
 						n++
 						k := n
 						if kind == "fn-returns-ErrFull" {
@@ -315,9 +324,23 @@ func TestDrive_C06(t *testing.T) {
 				for bh.TryAcquirePermit() {
 					free++
 				}
+				if int(maxInFlight.Load()) > cap {
+					free = -int(maxInFlight.Load()) // more invocations in progress than permits exist: reported as an impossible count
+				}
+				// a bulkhead whose permits are all held refuses every attempt of a hedged execution: the function never runs
+				if kind == "hedge-around" || kind == "hedge-around-retry" {
+					ran := 0
+					_, err := failsafe.NewExecutor[int](hedgepolicy.BuilderWithDelay[int](10*time.Millisecond).WithMaxHedges(2).Build(), bh).
+						Get(func() (int, error) { ran++; time.Sleep(50 * time.Millisecond); return 1, nil })
+					time.Sleep(time.Hour)
+					synctest.Wait()
+					if ran != 0 || !errors.Is(err, bulkhead.ErrFull) {
+						free = -100 - ran
+					}
+				}
 			})
 			f := free
-			w.Add(func(id int) string { return fmt.Sprintf("mk_case %d %d 0 0%%nat 0 [] [] %d", id, cap, f) },
+			w.Add(func(id int) string { return fmt.Sprintf("mk_case %d %d 0 0%%nat 0 [] [] %s", id, cap, gZ(int64(f))) },
 				map[string]any{"probe": "12 executions through " + kind, "max_concurrency": cap, "free_permits_at_the_end": free},
 				true, fmt.Sprint("balance2", cap, kind))
 			w.Stat("balance_probe=" + kind)
